@@ -764,7 +764,7 @@ def tree_map(
     """
     leaves, treespec = _C.flatten(tree, is_leaf, none_is_leaf, namespace)
     flat_args = [leaves] + [treespec.flatten_up_to(r) for r in rests]
-    return treespec.unflatten(map(func, *flat_args))
+    return treespec.unflatten([func(*args) for args in zip(*flat_args)])
 
 
 def tree_map_(
@@ -805,7 +805,8 @@ def tree_map_(
     """
     leaves, treespec = _C.flatten(tree, is_leaf, none_is_leaf, namespace)
     flat_args = [leaves] + [treespec.flatten_up_to(r) for r in rests]
-    deque(map(func, *flat_args), maxlen=0)  # consume and exhaust the iterable
+    for args in zip(*flat_args):
+        func(*args)
     return tree
 
 
@@ -857,7 +858,7 @@ def tree_map_with_path(
     """
     paths, leaves, treespec = _C.flatten_with_path(tree, is_leaf, none_is_leaf, namespace)
     flat_args = [leaves] + [treespec.flatten_up_to(r) for r in rests]
-    return treespec.unflatten(map(func, paths, *flat_args))
+    return treespec.unflatten([func(*args) for args in zip(paths, *flat_args)])
 
 
 def tree_map_with_path_(
@@ -900,7 +901,8 @@ def tree_map_with_path_(
     """
     paths, leaves, treespec = _C.flatten_with_path(tree, is_leaf, none_is_leaf, namespace)
     flat_args = [leaves] + [treespec.flatten_up_to(r) for r in rests]
-    deque(map(func, paths, *flat_args), maxlen=0)  # consume and exhaust the iterable
+    for args in zip(paths, *flat_args):
+        func(*args)
     return tree
 
 
@@ -975,7 +977,7 @@ def tree_map_with_accessor(
     """
     leaves, treespec = _C.flatten(tree, is_leaf, none_is_leaf, namespace)
     flat_args = [leaves] + [treespec.flatten_up_to(r) for r in rests]
-    return treespec.unflatten(map(func, treespec.accessors(), *flat_args))
+    return treespec.unflatten([func(*args) for args in zip(treespec.accessors(), *flat_args)])
 
 
 def tree_map_with_accessor_(
@@ -1018,7 +1020,8 @@ def tree_map_with_accessor_(
     """
     leaves, treespec = _C.flatten(tree, is_leaf, none_is_leaf, namespace)
     flat_args = [leaves] + [treespec.flatten_up_to(r) for r in rests]
-    deque(map(func, treespec.accessors(), *flat_args), maxlen=0)  # consume and exhaust the iterable
+    for args in zip(treespec.accessors(), *flat_args):
+        func(*args)
     return tree
 
 
@@ -1204,7 +1207,7 @@ def tree_transpose_map(
     if outer_treespec.num_leaves == 0:
         raise ValueError(f'The outer structure must have at least one leaf. Got: {outer_treespec}.')
     flat_args = [leaves] + [outer_treespec.flatten_up_to(r) for r in rests]
-    outputs = list(map(func, *flat_args))
+    outputs = [func(*args) for args in zip(*flat_args)]
 
     if inner_treespec is None:
         inner_treespec = tree_structure(
@@ -1291,7 +1294,7 @@ def tree_transpose_map_with_path(
     if outer_treespec.num_leaves == 0:
         raise ValueError(f'The outer structure must have at least one leaf. Got: {outer_treespec}.')
     flat_args = [leaves] + [outer_treespec.flatten_up_to(r) for r in rests]
-    outputs = list(map(func, paths, *flat_args))
+    outputs = [func(*args) for args in zip(paths, *flat_args)]
 
     if inner_treespec is None:
         inner_treespec = tree_structure(
@@ -1405,7 +1408,7 @@ def tree_transpose_map_with_accessor(
     if outer_treespec.num_leaves == 0:
         raise ValueError(f'The outer structure must have at least one leaf. Got: {outer_treespec}.')
     flat_args = [leaves] + [outer_treespec.flatten_up_to(r) for r in rests]
-    outputs = list(map(func, outer_treespec.accessors(), *flat_args))
+    outputs = [func(*args) for args in zip(outer_treespec.accessors(), *flat_args)]
 
     if inner_treespec is None:
         inner_treespec = tree_structure(
